@@ -12,8 +12,8 @@ RULE = ('random histories (length 10-80) and all histories of length <= 4 over {
         'non-trivial: history contains a collection or reordering; distinct = operation sequence prefix.')
 EXHAUSTIVE = {'quick': False, 'thorough': False}
 REQUIRED_COUNTERS = ['steps']
-OPS = ['build', 'var', 'apply', 'ite', 'quant', 'let', 'copyh', 'drop', 'gc', 'gcroots', 'swap', 'sift', 'order', 'succ']
-W = [4, 2, 4, 3, 2, 2, 1, 5, 3, 2, 2, 1, 1, 1]
+OPS = ['build', 'var', 'apply', 'ite', 'quant', 'let', 'copyh', 'drop', 'gc', 'gcroots', 'swap', 'sift', 'order', 'succ', 'fork', 'copyout']
+W = [4, 2, 4, 3, 2, 2, 1, 5, 3, 2, 2, 1, 1, 1, 1, 1]
 
 
 def bounds(tier):
@@ -29,7 +29,7 @@ def chunks(tier, seed):
         out.append(('case_random', [dict(seed=seed * 100003 + k + i, steps=10 + (k + i) % 70,
                                          names=hist.ALLNAMES[:3 + (k + i) % 2]) for i in range(per)]))
     L = 3 if tier == 'quick' else 4
-    alpha = ['build', 'ite', 'drop', 'gc', 'swap', 'gcroots']
+    alpha = ['build', 'ite', 'drop', 'gc', 'swap', 'gcroots', 'fork']
     seqs = [list(s) for s in itertools.product(alpha, repeat=L)]
     for k in range(0, len(seqs), 40):
         out.append(('case_enum', [dict(seq=s, seed=seed) for s in seqs[k:k + 40]]))
